@@ -161,6 +161,7 @@ def is_raw_dataclass(cls: type) -> bool:
         and "__slots__" not in cls.__dict__
         and not hasattr(cls, "__post_init__")
         and all(f.init for f in dataclasses.fields(cls))
+        and getattr(cls, dataclasses._PARAMS).init  # type: ignore
         and cls.__new__ is object.__new__
         and (
             cls.__setattr__ is object.__setattr__
